@@ -13,7 +13,7 @@ ALL = C.ALL_MESSAGE_TYPES
 # locally defined (core) message types used as "good" frames: id -> payload size
 GOOD_TYPES = [26, 32, 0, 8, 33, 14, 62]
 SCRATCH_TYPE = 31990           # registered / re-registered through the public @message_def at run time
-UNKNOWN_TYPES = [7777, 7778, 123456]
+UNKNOWN_TYPES = [7777, 7778, 123456, -7, -2147483648, 2147483646, 65536]
 
 
 class Frame:
